@@ -121,6 +121,21 @@ def test(inp):
         if not numpy.array_equal(numpy.asarray(q.U), lin.reshape(-1)) or not numpy.array_equal(numpy.asarray(q.V), (lin * 2).reshape(-1)):
             return 'quiver components are not those of the same cell'
         must_raise(lambda: d3.assign(s2=(['extra'] + fdims, numpy.stack([lin, lin]))).ems.make_quiver(ax, 'stack', 's2'), 'vector with leftover dimension', ValueError)
+        # history: components with missing values in some cells (dry cells at one time step), then a time step where those cells have data:
+        # the arrows still sit at the face centres, and plotting does not disturb the convention's face centres
+        if size >= 3:
+            holes_u = lin.copy().ravel()
+            holes_u[[0, size // 2]] = numpy.nan
+            steps_u = numpy.stack([holes_u.reshape(shape), lin])
+            d7 = ds.assign(u=(['step'] + fdims, steps_u), v=(['step'] + fdims, steps_u * 2))
+            e7 = d7.ems
+            centres_before = numpy.array(e7.face_centres, copy=True)
+            for t in (0, 1):
+                q7 = must(lambda: e7.make_quiver(ax, d7['u'].isel(step=t), d7['v'].isel(step=t)), f'make_quiver (time step {t})')
+                if not numpy.allclose(numpy.asarray(q7.XY), centres_before, equal_nan=True):
+                    return f'quiver arrows of time step {t} are not at the face centres (earlier components had missing values in some cells)'
+            if not numpy.array_equal(numpy.asarray(e7.face_centres), centres_before, equal_nan=True):
+                return 'plotting vectors with missing components changed the face centres of the convention'
         # animation frames
         nt = 3
         tdim = 'frame'
